@@ -1247,9 +1247,9 @@ KNOWN = [{"key": "string-read-not-inverse",
 # string back (op `rsame`, never generated).  `rs` on arbitrary bytes (incl. hostile lengths) IS generated and modelled.
 
 TRUSTED = ["tools/props/c16.py translate(): regex extraction (byte-order test of every operator<< / operator>>, byte count of the "
-           "non-swapping Array<T> branch, the memory path of each generic operator<<(const T&) statement by statement (which object swapBytes and write touch), shift/index terms and _ptr advance of read2/4/8, readN dispatch of the operator>> overloads, the index expression of swapBytes, "
+           "non-swapping Array<T> branch, the memory path of each generic operator<<(const T&) statement by statement (which object swapBytes and write touch), the byte counts / pointer advances of StreamBuffer::write, StreamBufferReader::read(n)/skip, File::read/write, Socket_::skip, shift/index terms and _ptr advance of read2/4/8, readN dispatch of the operator>> overloads, the index expression of swapBytes, "
            "default byte orders, IsArithmetic<T> via a second probe, the tests and counts of File/Socket operator>>(Array<T>&); whole-body shape checks (TranslateError otherwise, nothing generated) "
-           "of the raw-byte overloads, operator<<(char*), StreamBuffer's operator<<(const T (&)[N]), StreamBuffer::write, StreamBufferReader::read(n)/skip, the put_/get_ Array dispatch of the generic "
+           "of the raw-byte overloads, operator<<(char*), StreamBuffer's operator<<(const T (&)[N]), the put_/get_ Array dispatch of the generic "
            "File/Socket operators, File::operator>>(String&), Socket::readString, the size<=0 guard of Socket_::read) from include/asl/{defs,StreamBuffer,File,Socket}.h and src/Socket.cpp into lean/Gen/StreamGen.lean; "
            "a compiled 10-line probe program for ASL_OTHER_ENDIAN, the compiler's byte order and sizeof of the 12 types",
            "the harness observes written bytes outside asl (buffer content, POSIX pread on the temp file, recv on the raw socketpair peer) "
@@ -1291,8 +1291,10 @@ LEVEL_TEXT = ("Proved in Lean 4 for all three classes, all 12 scalar types, all 
               "Raw bytes and skip: a raw/String/ByteArray write anywhere in a history appends exactly the argument's bytes between the earlier and the later encodings and leaves the order alone (raw_write_spec); "
               "on arbitrary data read(n) returns the next n bytes and skip(n) advances by exactly n, the later reads being those on the remaining data (raw_read_spec, skip_spec; skip = discarded read, skips add up: skip_compose); "
               "a history read back with ANY subset of its items stepped over by skip(size of the item) returns the original values of all the others, with order switches anywhere (read_back_with_skips). "
-              "In the model setEndian writes/reads no byte, raw writes are the bytes themselves and read(n)/skip are take/drop: "
-              "that the real setEndian, raw-byte, String and skip operations are these functions is tied by the correspondence check (ops wb/ws/wz/wc/rb/skip, now also skips replacing typed reads in the read-back cases) plus a "
+              "In the model setEndian writes/reads no byte; a raw write appends take(COUNT) of its argument, read(n) returns take(COUNT) and drops ADV, skip(n) drops ADV, with the counts "
+              "regenerated from StreamBuffer::write (append(data, COUNT)), StreamBufferReader::read(n) (array length = memcpy count, _ptr += ADV) and skip (_ptr += ADV), File::read/write "
+              "(fread/fwrite size*count) and Socket_::skip (a thrown-away read of COUNT bytes): obligation gen_raw_byte_counts (all equal n) — a source advancing by n+1 breaks it; "
+              "that append/memcpy/fread/fwrite/fseek/send/recv move exactly those bytes is assumed (ASSUMPTIONS) and exercised by the correspondence check (ops wb/ws/wz/wc/rb/skip, now also skips replacing typed reads in the read-back cases) plus a "
               "translator shape check of those overloads. The byte-order tests, Array byte counts, read2/4/8 shift/index terms, readN "
               "dispatch, swapBytes' index expression, ASL_OTHER_ENDIAN, host byte order and sizeof are regenerated from /repo on every run (G); the overload "
               "set actually selected by C++ for each type and the I/O plumbing are tied to the model by the correspondence check (K) on the three "
@@ -1301,7 +1303,7 @@ LEVEL_NOTE = ("Trusted: Lean kernel, the regex translator + compiler probe, the 
               "fwrite/fread/send/read transfer all bytes (partial-transfer loops belong to C17/C10). NATIVE = LITTLE in StreamBufferReader is correct "
               "only on a little-endian host: obligation gen_reader_cond fails on a big-endian build. Only K-validated (no theorem): which C++ overload "
               "is selected per type (the bodies of StreamBuffer's bool/byte/char overloads, of the ByteArray/Array<byte>/String/const char* overloads, of File/Socket >> char/byte and of StreamBufferReader::read(n)/skip are shape-checked by the translator, TranslateError otherwise), setEndian taking effect immediately, default byte orders, "
-              "that the real skip/read(n)/write(p,n) are drop/take/append (their consequences for histories are theorems: raw_write_spec, raw_read_spec, skip_spec, read_back_with_skips). Reads past the end and File/Socket >> bool of a byte other than 0/1 are outside the property "
+              "File skip = seek(n, HERE) (fseek) and the Socket send/recv loops behind write(p,n)/read(p,n) (the byte counts of the other raw operations are regenerated: gen_raw_byte_counts; consequences for histories are theorems: raw_write_spec, raw_read_spec, skip_spec, read_back_with_skips). Reads past the end and File/Socket >> bool of a byte other than 0/1 are outside the property "
               "(guarded in the protocol). Fixed defects kept as corpus witnesses: 264bf86 (Array<T> in native order wrote length() bytes), fbcbf17 (a StreamBuffer written into itself read freed "
               "storage), 8a61870 (Array<String> in native order wrote String object memory), e37681a (>> String trusted its length: out-of-bounds write), cdda882 "
               "(>> Array<T> read raw bytes over the Array object), 8331f50 (a zero-length Socket read marked the socket as failed), b125771 (Socket::readString cut the value at the first NUL; "
